@@ -72,6 +72,24 @@ theorem C02_checker_sound (d1 d2 : Dialect) (sch : Schema) (L : LikeFn) (e : Exp
   obtain ⟨k2, e2, i2⟩ := C01_checker_sound sch d2 L e real2 h2 hL2 env hwt
   exact ⟨k1, k2, e1, e2, i1.trans i2.symm⟩
 
+/-- **C02_exists_dialects** — correlated `exists(e for e in p.es if cond)`: when the checker accepts the inner conditions the real
+    translators of two dialects emitted, the two `EXISTS (…)` sub-selects agree for every parent and every child table. -/
+theorem C02_exists_dialects (d1 d2 : Dialect) (sch : Schema) (L : LikeFn) (e : Expr) (c1 c2 : SqlList)
+    (h1 : checkConditions sch d1 e c1 = true) (h2 : checkConditions sch d2 e c2 = true) (hL1 : LikeOK L d1) (hL2 : LikeOK L d2)
+    (pk : Int) (children : List Child) (hwt : ChildrenWT sch children) :
+    sqlExists L d1 pk c1 children = sqlExists L d2 pk c2 children ∧ sqlCountWhere L d1 pk c1 children = sqlCountWhere L d2 pk c2 children := by
+  rw [C01_exists_collection sch d1 L e c1 h1 hL1 pk children hwt, C01_exists_collection sch d2 L e c2 h2 hL2 pk children hwt,
+    C01_count_collection sch d1 L e c1 h1 hL1 pk children hwt, C01_count_collection sch d2 L e c2 h2 hL2 pk children hwt]
+  exact ⟨rfl, rfl⟩
+
+/-- **C02_join_dialects** — conditions navigating through a to-one reference: accepted on two dialects, both inner joins return the
+    same rows. -/
+theorem C02_join_dialects (d1 d2 : Dialect) (sch : Schema) (L : LikeFn) (e : Expr) (c1 c2 : SqlList)
+    (h1 : checkConditions sch d1 e c1 = true) (h2 : checkConditions sch d2 e c2 = true) (hL1 : LikeOK L d1) (hL2 : LikeOK L d2)
+    (rows : List JRow) (hwt : ∀ r ∈ rows, ∀ p, r.parent = some p → WT sch (mergeEnv r.child p)) :
+    sqlJoin L d1 c1 rows = sqlJoin L d2 c2 rows := by
+  rw [C01_join sch d1 L e c1 h1 hL1 rows hwt, C01_join sch d2 L e c2 h2 hL2 rows hwt]
+
 /-! ### the typing guards of the fragment are not removable on PostgreSQL -/
 
 def sch1 : Schema where
